@@ -175,10 +175,11 @@ def calculate_viability_and_necessity(graph: AttackGraph) -> None:
     # The propagation below can only lower the labels of attack steps, so
     # labels left by an earlier analysis or loaded from a file must not
     # survive a change of a defense or existence status.
+    # (This includes defenses and existence steps: they are evaluated one
+    # by one below, and a propagation started before that reads them.)
     for node in graph.nodes:
-        if node.type in ['or', 'and']:
-            node.is_viable = True
-            node.is_necessary = True
+        node.is_viable = True
+        node.is_necessary = True
 
     for node in graph.nodes:
         if node.type in ['exist', 'notExist', 'defense']:
